@@ -159,13 +159,14 @@ type vpIdP struct {
 	lineages  map[string]*vpLineage // by lineage id
 	rtIndex   map[string]string     // refresh token -> lineage id (including consumed ones)
 	atIndex   map[string]string     // access token -> user
+	atNonce   map[string]string     // access token -> the nonce of the authorization request it stems from
 	epCount   map[string]int
 	faults    map[string]*vpFault // endpoint kind -> fault
 	noUserinfo bool
 	users      map[string]vpUser // per-IdP users (fall back to vpUsers)
 
 	// behaviour knobs
-	nonceMode      string                               // echo | other | empty | absent | raw | replay
+	nonceMode      string                               // echo | other | empty | absent | raw | replay | absent_profile
 	otherNonce     string                               // for nonceMode other
 	replayToken    string                               // for nonceMode replay: a previously issued id_token
 	mutateClaims   func(kind string, c map[string]interface{}) // kind: code | refresh
@@ -513,6 +514,10 @@ func (p *vpIdP) writeTokens(rw http.ResponseWriter, kind string, lid string, lin
 	lin.AccessTok = at
 	p.lastAccessTok = at
 	p.atIndex[at] = lin.User
+	if p.atNonce == nil {
+		p.atNonce = map[string]string{}
+	}
+	p.atNonce[at] = lin.Nonce
 	now := time.Now()
 	claims := map[string]interface{}{
 		"iss": p.issuer(), "sub": u.Sub, "aud": vpClientID, "azp": vpClientID,
@@ -666,6 +671,9 @@ func (p *vpIdP) hUserinfo(rw http.ResponseWriter, r *http.Request) {
 	u := p.user(user)
 	out := map[string]interface{}{"sub": u.Sub, "email": u.Email, "email_verified": true, "preferred_username": u.Username, "groups": u.Groups,
 		"profile_only": "from-profile"}
+	if p.nonceMode == "absent_profile" {
+		out["nonce"] = p.atNonce[at] // the ID token has none; the profile document volunteers it
+	}
 	for k, v := range p.userinfoClaims {
 		if v == nil {
 			delete(out, k)
